@@ -286,6 +286,10 @@ def run(pm, ctx):
     run_decisions(pm, ctx, 'C03-RD', OWN['C03'])
     from .. import exprdrift
     exprdrift.run(pm, ctx, 'C03-RE', OWN['C03'])
+    from ..conddrift import run_calls
+    run_calls(pm, ctx, 'C03-RC', OWN['C03'])
+    from .. import memo
+    memo.run(pm, ctx, 'C03-MK', OWN['C03'])
 
 
 def construct(site):
